@@ -12,10 +12,10 @@ Definition C11_full_statement : Prop :=
     no_bad (snd (run P presume plan_of D dev (init P D d paus stag rec) evs)) = true ->
     hold_ok (trace P presume plan_of D dev (init P D d paus stag rec) evs) = true.
 
-Definition wirun tapes ledger paus stag rec evs :=
-  run TP (t_resume tapes) t_plan_of nat (t_dev ledger) (init TP nat 0 paus stag rec) evs.
-Definition witrace tapes ledger paus stag rec evs :=
-  trace TP (t_resume tapes) t_plan_of nat (t_dev ledger) (init TP nat 0 paus stag rec) evs.
+Notation wirun tapes ledger paus stag rec evs :=
+  (run TP (t_resume tapes) t_plan_of nat (t_dev ledger) (init TP nat 0 paus stag rec) evs) (only parsing).
+Notation witrace tapes ledger paus stag rec evs :=
+  (trace TP (t_resume tapes) t_plan_of nat (t_dev ledger) (init TP nat 0 paus stag rec) evs) (only parsing).
 
 (* a suspension accepted in the final sleep of `_run` (after the plan's last message), never released; the call
    ends; the next call advances its plan *)
@@ -38,7 +38,7 @@ Theorem c11_full_refuted : ~ C11_full_statement.
 Proof.
   intros H. destruct c11_full_witness as (A & B & C & E & _).
   specialize (H TP (t_resume w_tapes) t_plan_of nat (t_dev []) 0 [] [] false w_call_evs A B C).
-  unfold witrace in E. rewrite E in H. discriminate H.
+  rewrite E in H. discriminate H.
 Qed.
 
 (* the other two conditions are needed as well *)
@@ -55,9 +55,12 @@ Example c11_stale_future_witness :
   hold_ok (witrace w_tapes2 [] [] [] false w_stale_evs) = false.
 Proof. vm_compute. repeat split. Qed.
 
+Definition has_obs (x : obs) (l : list obs) : bool := if in_dec obs_eq_dec x l then true else false.
+
 (* non-vacuity on recorded real runs: the plain suspension of RE_CtlExamples and a suspension with pre- and
    post-plan and interruption records (corpus case "c11 move suspend@5 pp3") *)
-(* ex_susp_pp : {"plan": ["seq", ["m", "stage", 0, [], {}, null], ["m", "open_run", null, [], {}, null], ["m", "checkpoint", null, [], {}, null], ["m", "set", 1, [1], {"group": "g"}, null], ["m", "set", 2, [1], {"group": "g"}, null], ["m", "wait", null, [], {"group": "g"}, null], ["m", "create", null, [], {"name": "primary"}, null], ["m", "read", 1, [], {}, null], ["m", "save", null, [], {}, null], ["m", "checkpo *)
+(* ex_susp_pp : engine_cases_ctl.c11_cases, tag "c11 move suspend@5 pp3": plan p_c11_move, suspension at _run step 5 with
+   pre-plan seq(null, stop 1), post-plan seq(null), record_interruptions on, release of future 0 at step 200 *)
 Definition ex_susp_pp_tapes : list (nat * list tout) := [(0, [TY {| mid := (Some 0); mcmd := CStage; mobj := (Some 0); mrun := 0 |}; TY {| mid := (Some 1); mcmd := COpenRun; mobj := None; mrun := 0 |}; TY {| mid := (Some 2); mcmd := CCheckpoint; mobj := None; mrun := 0 |}; TY {| mid := (Some 3); mcmd := (CSet 1); mobj := (Some 1); mrun := 0 |}; TY {| mid := (Some 4); mcmd := (CSet 1); mobj := (Some 2); mrun := 0 |}; TY {| mid := (Some 8); mcmd := (CWait 1); mobj := None; mrun := 0 |}; TY {| mid := (Some 9); mcmd := (CCreate 0); mobj := None; mrun := 0 |}; TY {| mid := (Some 10); mcmd := CRead; mobj := (Some 1); mrun := 0 |}; TY {| mid := (Some 11); mcmd := CSave; mobj := None; mrun := 0 |}; TY {| mid := (Some 12); mcmd := CCheckpoint; mobj := None; mrun := 0 |}; TY {| mid := (Some 13); mcmd := CNull; mobj := None; mrun := 0 |}; TY {| mid := (Some 14); mcmd := CNull; mobj := None; mrun := 0 |}; TY {| mid := (Some 15); mcmd := (CCloseRun None RsEmpty); mobj := None; mrun := 0 |}; TY {| mid := (Some 16); mcmd := CUnstage; mobj := (Some 0); mrun := 0 |}; TR (VDevs [0])]); (1000, [TY {| mid := (Some 5); mcmd := CNull; mobj := None; mrun := 0 |}; TY {| mid := (Some 6); mcmd := CStop; mobj := (Some 1); mrun := 0 |}; TR VNone]); (1001, [TY {| mid := (Some 7); mcmd := CNull; mobj := None; mrun := 0 |}; TR VNone])].
 Definition ex_susp_pp_ledger : list devres := [DUnit; DStatus 0 false; DStatus 1 false; DUnit; DUnit; DUnit; DUnit; DUnit; DStatus 2 false; DStatus 3 false; DVal (0)%Z; DUnit; DUnit; DUnit].
 Definition ex_susp_pp_evs : list event := [EvMain (ACall 0); EvPermit; EvTask; EvTask; EvTask; EvTask; EvTask; EvStatus 0 true; EvTask; EvReqSuspend 0 true true; EvStatus 1 true; EvTask; EvTask; EvTask; EvTask; EvTask; EvTask; EvRelease 0; EvTask; EvTask; EvTask; EvTask; EvTask; EvStatus 2 true; EvTask; EvStatus 3 true; EvTask; EvTask; EvTask; EvTask; EvTask; EvTask; EvCacheDone; EvTask; EvTask; EvTask; EvTask; EvTask; EvTask; EvTask; EvTask; EvTask; EvMainDone (ACall 0)].
@@ -71,7 +74,7 @@ Example c11_theorem_applies_to_recorded_runs :
   no_bad (snd (wirun ex_susp_pp_tapes ex_susp_pp_ledger ex_susp_pp_paus ex_susp_pp_stag ex_susp_pp_rec ex_susp_pp_evs)) = true /\
   plain_susp_plans (witrace ex_susp_pp_tapes ex_susp_pp_ledger ex_susp_pp_paus ex_susp_pp_stag ex_susp_pp_rec ex_susp_pp_evs) = true /\
   hold_ok (witrace ex_susp_pp_tapes ex_susp_pp_ledger ex_susp_pp_paus ex_susp_pp_stag ex_susp_pp_rec ex_susp_pp_evs) = true /\
-  In (EvReqSuspend 0 true true) ex_susp_pp_evs /\
-  In (OPlanIn 1000 (Send VNone)) (snd (wirun ex_susp_pp_tapes ex_susp_pp_ledger ex_susp_pp_paus ex_susp_pp_stag ex_susp_pp_rec ex_susp_pp_evs)) /\
-  In (OPlanIn 1001 (Send VNone)) (snd (wirun ex_susp_pp_tapes ex_susp_pp_ledger ex_susp_pp_paus ex_susp_pp_stag ex_susp_pp_rec ex_susp_pp_evs)).
-Proof. vm_compute. repeat split; auto 200. Qed.
+  existsb (fun e => match e with EvReqSuspend 0 true true => true | _ => false end) ex_susp_pp_evs = true /\
+  has_obs (OPlanIn 1000 (Send VNone)) (snd (wirun ex_susp_pp_tapes ex_susp_pp_ledger ex_susp_pp_paus ex_susp_pp_stag ex_susp_pp_rec ex_susp_pp_evs)) = true /\
+  has_obs (OPlanIn 1001 (Send VNone)) (snd (wirun ex_susp_pp_tapes ex_susp_pp_ledger ex_susp_pp_paus ex_susp_pp_stag ex_susp_pp_rec ex_susp_pp_evs)) = true.
+Proof. vm_compute. repeat split. Qed.
